@@ -231,7 +231,7 @@ Proof. reflexivity. Qed.
 Lemma mp_field_ts v m b : mp_field v k_ts m b = (do '(x, b1) <- mp_u32 b; Ok (set_ts x m, b1)).
 Proof. reflexivity. Qed.
 Lemma mp_field_value v m b : mp_field v k_value m b =
-  (do '(n, b1) <- mp_array_header b; do _ <- mp_alloc v n 8 5 b1;
+  (do '(n, b1) <- mp_array_header b; do _ <- mp_alloc v n 8 1 b1;
    do '(xs, b2) <- mp_repeat mp_f64 (rep_fuel b1) n b1; Ok (set_value xs m, b2)).
 Proof. reflexivity. Qed.
 Lemma mp_field_unique v m b : mp_field v k_unique m b =
@@ -239,16 +239,27 @@ Lemma mp_field_unique v m b : mp_field v k_unique m b =
    do '(xs, b2) <- mp_repeat mp_i64 (rep_fuel b1) n b1; Ok (set_unique xs m, b2)).
 Proof. reflexivity. Qed.
 Lemma mp_field_hist v m b : mp_field v k_histogram m b =
-  (do '(n, b1) <- mp_array_header b; do _ <- mp_alloc v n 16 11 b1;
+  (do '(n, b1) <- mp_array_header b; do _ <- mp_alloc v n 16 3 b1;
    do '(xs, b2) <- mp_repeat mp_centroid (rep_fuel b1) n b1; Ok (set_hist xs m, b2)).
 Proof. reflexivity. Qed.
 
 (* enough memory for any 32-bit count of the largest element *)
-Definition roomy (v : variant) : Prop := match v_alloc_limit v with Some L => two32 * 144 <= L | None => False end.
-Lemma mp_alloc_roomy v n esz minb b : roomy v -> 0 <= n < two32 -> 0 <= esz <= 144 -> mp_alloc v n esz minb b = Ok tt.
+(* as written now (counts checked against the bytes left: no limit involved), or the earlier code with enough memory
+   for any 32-bit count of the largest element *)
+Definition roomy (v : variant) : Prop := match v_alloc_limit v with Some L => two32 * 144 <= L | None => True end.
+Lemma mp_alloc_roomy v n esz minb b : roomy v -> 0 <= n < two32 -> 0 <= esz <= 144 -> n * minb <= zlen b ->
+  mp_alloc v n esz minb b = Ok tt.
 Proof.
-  unfold roomy, mp_alloc. destruct (v_alloc_limit v); [|tauto]. intros. unfold two32 in *.
-  destruct (z <? n * esz) eqn:E; [exfalso; nia|reflexivity].
+  unfold roomy, mp_alloc. destruct (v_alloc_limit v); intros; unfold two32 in *.
+  - destruct (z <? n * esz) eqn:E; [exfalso; nia|reflexivity].
+  - destruct (zlen b <? n * minb) eqn:E; [exfalso; lia|reflexivity].
+Qed.
+Lemma flat_map_zlen_ge {A} (enc : A -> bytes) k (l : list A) r :
+  (forall x, k <= zlen (enc x)) -> zlen l * k <= zlen (flat_map enc l ++ r).
+Proof.
+  intros H. rewrite zlen_app. pose proof (zlen_nonneg r). enough (zlen l * k <= zlen (flat_map enc l)) by lia.
+  induction l; cbn [flat_map]; [unfold zlen; cbn; lia|]. rewrite zlen_app. specialize (H a).
+  unfold zlen in *. cbn [length]. lia.
 Qed.
 
 Definition is_tagb (kv : bytes * bytes) := is_bytes (fst kv) && is_bytes (snd kv).
@@ -329,6 +340,22 @@ Proof.
   unfold wf_metric. intros H. repeat (apply andb_true_iff in H as [H ?]). repeat split; try assumption; [unfold is_bytes; rewrite H; assumption | lia].
 Qed.
 
+Lemma zlen_ge_of_length {A} (l : list A) k : (Z.to_nat k <= length l)%nat -> k <= zlen l.
+Proof. unfold zlen. lia. Qed.
+Lemma enc_tagkv_len x : 2 <= zlen (enc_tagkv x).
+Proof.
+  unfold enc_tagkv. rewrite zlen_app. pose proof (mpe_str_nonempty (fst x)). pose proof (mpe_str_nonempty (snd x)).
+  unfold zlen. lia.
+Qed.
+Lemma mpe_f64_len x : 1 <= zlen (mpe_f64 x).
+Proof. unfold mpe_f64, zlen. cbn [length]. lia. Qed.
+Lemma mpe_i64_len x : 1 <= zlen (mpe_i64 x).
+Proof. pose proof (mpe_i64_nonempty x). unfold zlen. lia. Qed.
+Lemma enc_cent_len x : 3 <= zlen (enc_cent x).
+Proof. unfold enc_cent, mpe_f64, zlen. cbn [length]. rewrite app_length. cbn [length]. lia. Qed.
+Ltac solve_alloc := try assumption; try lia;
+  apply flat_map_zlen_ge; first [apply enc_tagkv_len | apply mpe_f64_len | apply mpe_i64_len | apply enc_cent_len].
+
 Lemma items_ok v m : roomy v -> wf_metric m = true -> Forall (item_ok v) (metric_items m).
 Proof.
   intros Hv H. apply wf_metric_parts in H as (Hn & Ht & Htl & Hc & Hts & Hv' & Hu & Hh).
@@ -338,7 +365,7 @@ Proof.
     + intros m0 r. rewrite mp_field_name. rewrite mp_str_enc by (apply is_bytes_len; assumption). reflexivity.
     + intros m0 r. rewrite mp_field_tags. rewrite <- app_assoc.
       pose proof (zlen_nonneg (m_tags m)).
-      rewrite mp_map_enc by lia. cbn [bind]. rewrite mp_alloc_roomy by (try assumption; lia). cbn [bind].
+      rewrite mp_map_enc by lia. cbn [bind]. rewrite mp_alloc_roomy by solve_alloc. cbn [bind].
       rewrite (mp_repeat_enc_top mp_tag enc_tagkv (fun kv => is_tagb kv = true)).
       * reflexivity.
       * intros x r0 Hx. unfold enc_tagkv. rewrite <- app_assoc. apply mp_tag_enc. assumption.
@@ -353,7 +380,7 @@ Proof.
   - destruct (m_value m) as [l|]; cbn [oitem]; constructor; [|constructor].
     split; [cbn; unfold two32; lia|]. intros m0 r. rewrite mp_field_value. rewrite <- app_assoc.
     cbn [oall] in Hv'. apply andb_true_iff in Hv' as [Hl1 Hl2]. pose proof (zlen_nonneg l).
-    rewrite mp_arr_enc by lia. cbn [bind]. rewrite mp_alloc_roomy by (try assumption; lia). cbn [bind].
+    rewrite mp_arr_enc by lia. cbn [bind]. rewrite mp_alloc_roomy by solve_alloc. cbn [bind].
     rewrite (mp_repeat_enc_top mp_f64 mpe_f64 (fun x => is_f64 x = true)).
     + reflexivity.
     + intros x r0 Hx. apply mp_f64_enc. apply is_f64_spec. assumption.
@@ -362,7 +389,7 @@ Proof.
   - destruct (m_unique m) as [l|]; cbn [oitem]; constructor; [|constructor].
     split; [cbn; unfold two32; lia|]. intros m0 r. rewrite mp_field_unique. rewrite <- app_assoc.
     cbn [oall] in Hu. apply andb_true_iff in Hu as [Hl1 Hl2]. pose proof (zlen_nonneg l).
-    rewrite mp_arr_enc by lia. cbn [bind]. rewrite mp_alloc_roomy by (try assumption; lia). cbn [bind].
+    rewrite mp_arr_enc by lia. cbn [bind]. rewrite mp_alloc_roomy by solve_alloc. cbn [bind].
     rewrite (mp_repeat_enc_top mp_i64 mpe_i64 (fun x => is_i64 x = true)).
     + reflexivity.
     + intros x r0 Hx. apply mp_i64_enc. apply is_i64_spec. assumption.
@@ -371,7 +398,7 @@ Proof.
   - destruct (m_hist m) as [l|]; cbn [oitem]; constructor; [|constructor].
     split; [cbn; unfold two32; lia|]. intros m0 r. rewrite mp_field_hist. rewrite <- app_assoc.
     cbn [oall] in Hh. apply andb_true_iff in Hh as [Hl1 Hl2]. pose proof (zlen_nonneg l).
-    rewrite mp_arr_enc by lia. cbn [bind]. rewrite mp_alloc_roomy by (try assumption; lia). cbn [bind].
+    rewrite mp_arr_enc by lia. cbn [bind]. rewrite mp_alloc_roomy by solve_alloc. cbn [bind].
     rewrite (mp_repeat_enc_top mp_centroid enc_cent (fun x => is_f64p x = true)).
     + reflexivity.
     + intros x r0 Hx. apply mp_centroid_enc. assumption.
@@ -410,7 +437,8 @@ Proof.
   rewrite mp_key_enc by (cbn; unfold two32; lia). cbn [bind].
   replace (bytes_eqb k_metrics k_metrics) with true by reflexivity.
   pose proof (zlen_nonneg b). rewrite mp_arr_enc by lia. cbn [bind].
-  rewrite mp_alloc_roomy by (try assumption; lia). cbn [bind].
+  rewrite mp_alloc_roomy by (try assumption; try lia; apply flat_map_zlen_ge; intro x;
+                             pose proof (enc_mp_metric_nonempty x); unfold zlen; lia). cbn [bind].
   rewrite (mp_repeat_map_top (mp_metric v) enc_mp_metric canon (fun m => wf_metric m = true)).
   - cbn [bind]. replace (1 - 1) with 0 by reflexivity.
     match goal with |- mp_batch_fields _ ?f _ _ _ = _ => destruct f end; reflexivity.
